@@ -402,8 +402,8 @@ async fn scenario<T: Mk>(c: Case) -> Out {
         // ---- expectation
         let expected_handle: [u8; 16] = handle_of::<T>(k).into();
         let (want, sub): (Want, &'static str) = if !m.enabled {
-            if !m.keyed && opname != "write" {
-                // both "not enabled" and "keyless" apply; the statement does not rank them
+            if !m.keyed && opname == "lookup" {
+                // lookup_instance on a keyless type is not pinned down (see below); both errors accepted
                 (Want::Err(&["NotEnabled", "IllegalOperation"]), "not-enabled")
             } else {
                 (Want::Err(&["NotEnabled"]), "not-enabled")
@@ -553,7 +553,7 @@ pub fn main(ctx: &Ctx) {
                 assumptions: &[
                     "deterministic simulation, single participant, no reader needed (async API; the sync API is a block_on wrapper)",
                     "expected handle = verif_hooks::instance_handle(sample) (pure function of the key, C11/C12 judge its value)",
-                    "tolerated: lookup_instance on a keyless type (unspecified); NotEnabled vs IllegalOperation on a disabled keyless writer; BadParameter vs PreconditionNotMet when an unregistered key is combined with the handle of another registered instance",
+                    "tolerated: lookup_instance on a keyless type (unspecified, also NotEnabled vs IllegalOperation on a disabled keyless writer for it); every other operation on a disabled writer must give NotEnabled ('every operation on a not-yet-enabled writer'), keyless or not; BadParameter vs PreconditionNotMet when an unregistered key is combined with the handle of another registered instance",
                     "after a mismatch on a key no further verdicts are derived for that key in the case (its implementation state is unknown); the case verdict is the first mismatch not listed as known finding",
                 ],
                 nontrivial_floor: 300,
